@@ -251,6 +251,7 @@ pub fn run(cx: &mut Cx) {
         }
     }
     cx.ev.require("workload/length-sweep");
+    cx.ev.require("workload/revision-cluster");
     cx.ev.require("range/at-its-ends/true");
     cx.ev.require("range/at-its-ends/false");
     cx.ev.require("range/near-ended");
@@ -391,6 +392,35 @@ pub fn run(cx: &mut Cx) {
                         check_pair(ev, &mut cache, &star, x, y)
                     },
                 );
+            }
+        }
+    }
+
+    // (b5) revision clusters: one stem, every short tail behind "nb" (signs,
+    // blanks, separators, a second revision), all ordered pairs.
+    {
+        let mut r = cx.stream("revision-cluster");
+        let stems = cx.pick_tier(1usize, 1, 2, 6);
+        let keep = cx.pick_tier(4000u64, 16, 2, 1);
+        for si in 0..stems {
+            let stem = if si == 0 { "1.0".to_string() } else { gv::v_safe(&mut r) };
+            let c = gv::revision_cluster(&stem);
+            for (bi, b) in c.iter().enumerate() {
+                if !cx.mine(bi as u64) {
+                    continue;
+                }
+                for a in &c {
+                    if keep > 1 && crate::rng::hash_strs(&[a.as_bytes(), b.as_bytes()]) % keep != 0 {
+                        continue;
+                    }
+                    cx.check(
+                        || format!("revision cluster A={a:?} B={b:?}"),
+                        |ev| {
+                            ev.count("workload/revision-cluster");
+                            check_pair(ev, &mut cache, &star, a, b)
+                        },
+                    );
+                }
             }
         }
     }
